@@ -14,7 +14,7 @@ import (
 
 type c06Case struct {
 	Profile int    `json:"profile"`
-	Pass    string `json:"pass"`  // "keys": all orders of the YAML key maps (unbounded) | "others": every other map-range site at bound 1 | "all2": every site, bound 2
+	Pass    string `json:"pass"` // "keys": all orders of the YAML key maps (unbounded) | "others": every other map-range site at bound 1 | "all2": every site, bound 2
 	Replay  []int  `json:"replay,omitempty"`
 	Plain   bool   `json:"plain,omitempty"` // uninstrumented repetition pass
 	Part    int    `json:"part,omitempty"`
@@ -126,7 +126,7 @@ func c06Graph() *Graph {
 func init() {
 	Register(Meta{
 		ID: "C06", Level: "model_checking", LongCases: true,
-		Rule: "instrumented build: every `range` over a map in the repository is rewritten to iterate in the order dictated by the explorer (site list in the evidence). Profiles: m=2..4 sibling quantified constraints under one propertyConstraints map, the same nested to depth 2, under or/and/not mixed with plain constraints, with 1-3 prefixes. For each profile: pass keys = every order of every YAML key map (all permutations for <=4 keys, unbounded composition); pass others = every other map-range site at deviation bound 1 (2n rotations/reversals for maps with >4 keys); thorough adds pass all2 = every site at bound 2. Oracle: all executions of Validate(profile, data, fixed clock) yield one report byte string and all executions of GenerateRego after a counter reset yield one code byte string. An uninstrumented pass repeats every profile 30x in one process (Go's own random map order) as a cross-check that the seam is complete. Pass history: for 5 profiles x 6 documents chosen to collide on cheap cache keys (same profile name / different content, same node ids / different values, failing inputs), every ordered pair of Validate calls is executed in one process and each result must equal the result the same call gave before (a call's bytes must not depend on the call made before it).",
+		Rule:        "instrumented build: every `range` over a map in the repository is rewritten to iterate in the order dictated by the explorer (site list in the evidence). Profiles: m=2..4 sibling quantified constraints under one propertyConstraints map, the same nested to depth 2, under or/and/not mixed with plain constraints, with 1-3 prefixes. For each profile: pass keys = every order of every YAML key map (all permutations for <=4 keys, unbounded composition); pass others = every other map-range site at deviation bound 1 (2n rotations/reversals for maps with >4 keys); thorough adds pass all2 = every site at bound 2. Oracle: all executions of Validate(profile, data, fixed clock) yield one report byte string and all executions of GenerateRego after a counter reset yield one code byte string. An uninstrumented pass repeats every profile 30x in one process (Go's own random map order) as a cross-check that the seam is complete. Pass history: for 5 profiles x 6 documents chosen to collide on cheap cache keys (same profile name / different content, same node ids / different values, failing inputs), every ordered pair of Validate calls is executed in one process and each result must equal the result the same call gave before (a call's bytes must not depend on the call made before it).",
 		Assumptions: []string{"nondeterminism inside dependencies (OPA, json-gold, encoding/json) is not behind the seam; the uninstrumented repetition pass is the cross-check for it"},
 	}, c06Gen, c06Run)
 	Register(Meta{
